@@ -723,21 +723,24 @@ static int sch_bgn(sess_t *s) {
 	return 0;
 }
 
-/* ---- SOK non-interactive key agreement ---- */
+/* ---- SOK non-interactive key agreement: opt[4] selects the pair of identities ---- */
+static const char *SOK_A[] = { "alice", "Bob", "ab", "a", "x", "same-length-1", "Zed", "node-10" };
+static const char *SOK_B[] = { "bob", "Bobby", "a", "ab", "xy", "same-length-2", "zed", "node-1" };
 static int sch_sokaka(sess_t *s) {
 	c06_init();
+	const char *ida = SOK_A[s->opt[4] % 8], *idb = SOK_B[s->opt[4] % 8];
 	switch (s->phase) {
 		case 0: log_rc(s, "gen", cp_sokaka_gen(s->b[0])); return 1;
-		case 1: log_rc(s, "prvA", cp_sokaka_gen_prv(sk_a[s->sid], "alice", s->b[0])); return 1;
-		case 2: log_rc(s, "prvB", cp_sokaka_gen_prv(sk_b[s->sid], (s->opt[6] & 1) ? "carol" : "bob", s->b[0])); return 1;
+		case 1: log_rc(s, "prvA", cp_sokaka_gen_prv(sk_a[s->sid], ida, s->b[0])); return 1;
+		case 2: log_rc(s, "prvB", cp_sokaka_gen_prv(sk_b[s->sid], (s->opt[6] & 1) ? "carol" : idb, s->b[0])); return 1;
 		case 3: {
-			int rc = cp_sokaka_key(s->buf[0], (size_t)s->opt[3], "alice", sk_a[s->sid], "bob");
+			int rc = cp_sokaka_key(s->buf[0], (size_t)s->opt[3], ida, sk_a[s->sid], idb);
 			log_rc(s, "keyA", rc);
 			if (rc == RLC_OK) log_out(s, "keyA", s->buf[0], (size_t)s->opt[3]);
 			return 1;
 		}
 		case 4: {
-			int rc = cp_sokaka_key(s->buf[1], (size_t)s->opt[3], "bob", sk_b[s->sid], "alice");
+			int rc = cp_sokaka_key(s->buf[1], (size_t)s->opt[3], idb, sk_b[s->sid], ida);
 			log_rc(s, "keyB", rc);
 			if (rc == RLC_OK) log_out(s, "keyB", s->buf[1], (size_t)s->opt[3]);
 			return 0;
